@@ -12,8 +12,8 @@ Executable model, core Lean only.
   given to the model;
 * what the code rejects is an error here: unseen label with `closest=False` → `runtimeError`,
   a probability column without entry in `new_perm` → `keyError`, a destination column outside
-  the matrix → `indexError`.  `closest=True` (nearest neighbour search through scikit-learn) is
-  not modelled.
+  the matrix → `indexError`.  With `closest=True` the nearest neighbour search (scikit-learn's
+  kd-tree) is a parameter `near` of the model (`lookupC`); `nearest` is one concrete choice.
 -/
 namespace MlVerif.Perm
 
@@ -106,6 +106,43 @@ def transformLabels (d : Dict κ β) (y : List (Option κ)) : Except Err (List (
       | .error e => .error e) y
 
 end transform
+
+section closest
+variable {κ β : Type} [DecidableEq κ]
+
+/-- `_find_closest(u)`, as far as the label branch depends on it: scikit-learn's 1-nearest-neighbour
+search over `list(permutation_)` is a parameter `closer u k best` ("key `k` is strictly closer to
+`u` than `best`"); the model keeps the first best key in dictionary order.  An empty dictionary
+gives the query back (the real code raises inside scikit-learn there). -/
+def nearest (closer : κ → κ → κ → Bool) (d : Dict κ β) (u : κ) : κ :=
+  match d.keys with
+  | [] => u
+  | k :: ks => ks.foldl (fun best k' => if closer u k' best then k' else best) k
+
+/-- one cell of the label branch with `closest=True`: a label outside the fitted set is replaced by
+`near d u`, then `self.permutation_[cl]` (KeyError when `cl` is not a key) -/
+def lookupC (near : Dict κ β → κ → κ) (d : Dict κ β) (u : κ) : Except Err β :=
+  match d.get? u with
+  | some v => .ok v
+  | none =>
+    match d.get? (near d u) with
+    | some v => .ok v
+    | none => .error .keyError
+
+/-- label branch of `transform`, `closest=True`, integer / string array -/
+def transformPlainC (near : Dict κ β → κ → κ) (d : Dict κ β) (y : List κ) : Except Err (List β) :=
+  mapE (lookupC near d) y
+
+/-- label branch of `transform`, `closest=True`, float array: NaN cells are left as they are -/
+def transformLabelsC (near : Dict κ β → κ → κ) (d : Dict κ β) (y : List (Option κ)) :
+    Except Err (List (Option β)) :=
+  mapE (fun o => match o with
+    | none => .ok none
+    | some u => match lookupC near d u with
+      | .ok v => .ok (some v)
+      | .error e => .error e) y
+
+end closest
 
 section proba
 variable {β γ : Type} [DecidableEq β]
